@@ -1,0 +1,424 @@
+//go:build verif
+// +build verif
+
+package gmtls
+
+import (
+	"encoding/hex"
+	"strconv"
+	"strings"
+)
+
+// Hooks for the verification harness, byte-level handshake message codecs (build tag "verif" only): the
+// fields the unmarshal methods of handshake_messages.go / gm_handshake_messages.go fill in, printed
+// canonically, and what marshal writes for a fresh struct holding those fields. Nothing here changes the
+// behaviour of existing code.
+//
+// Format of a dump: tokens name=value separated by one space. A byte string (or Go string) is lower-case hex,
+// "-" when empty; a number is decimal; a bool is 0 or 1; a list of numbers is joined by "," ("-" when empty);
+// a list of byte strings is the hex strings joined by "," with "." for an empty entry ("-" for the empty
+// list). The last token is marshal=<hex>: marshal() of a NEW struct of the same type (raw == nil) carrying
+// exactly the parsed fields.
+
+func verifC15cBytes(b []byte) string {
+	if len(b) == 0 {
+		return "-"
+	}
+	return hex.EncodeToString(b)
+}
+
+func verifC15cList(l [][]byte) string {
+	if len(l) == 0 {
+		return "-"
+	}
+	out := make([]string, len(l))
+	for i, b := range l {
+		if len(b) == 0 {
+			out[i] = "."
+		} else {
+			out[i] = hex.EncodeToString(b)
+		}
+	}
+	return strings.Join(out, ",")
+}
+
+func verifC15cStrings(l []string) string {
+	bs := make([][]byte, len(l))
+	for i, s := range l {
+		bs[i] = []byte(s)
+	}
+	return verifC15cList(bs)
+}
+
+func verifC15cNums(n []uint16) string {
+	if len(n) == 0 {
+		return "-"
+	}
+	out := make([]string, len(n))
+	for i, v := range n {
+		out[i] = strconv.Itoa(int(v))
+	}
+	return strings.Join(out, ",")
+}
+
+func verifC15cBool(b bool) string {
+	if b {
+		return "1"
+	}
+	return "0"
+}
+
+func verifC15cCopy(b []byte) []byte { return append([]byte(nil), b...) }
+
+func verifC15cCopyList(l [][]byte) [][]byte {
+	var out [][]byte
+	for _, b := range l {
+		out = append(out, verifC15cCopy(b))
+	}
+	return out
+}
+
+// VerifDumpHandshake runs the unmarshal method of the message struct named kind (the names of
+// VerifHandshakeKinds) on data. ok is the verdict of unmarshal; when it is true, dump holds the parsed
+// fields in the format described above. An unknown kind gives ok == false and dump == "unknown".
+func VerifDumpHandshake(kind string, data []byte) (ok bool, dump string) {
+	msg := verifNewMessage(kind)
+	if msg == nil {
+		return false, "unknown"
+	}
+	if !msg.unmarshal(data) {
+		return false, ""
+	}
+	var f []string
+	add := func(name, val string) { f = append(f, name+"="+val) }
+	num := func(n int) string { return strconv.Itoa(n) }
+	var fresh verifHandshakeMessage
+	switch m := msg.(type) {
+	case *certificateMsg:
+		add("certs", verifC15cList(m.certificates))
+		fresh = &certificateMsg{certificates: verifC15cCopyList(m.certificates)}
+	case *serverKeyExchangeMsg:
+		add("key", verifC15cBytes(m.key))
+		fresh = &serverKeyExchangeMsg{key: verifC15cCopy(m.key)}
+	case *clientKeyExchangeMsg:
+		add("ciphertext", verifC15cBytes(m.ciphertext))
+		fresh = &clientKeyExchangeMsg{ciphertext: verifC15cCopy(m.ciphertext)}
+	case *finishedMsg:
+		add("verifyData", verifC15cBytes(m.verifyData))
+		fresh = &finishedMsg{verifyData: verifC15cCopy(m.verifyData)}
+	case *serverHelloDoneMsg:
+		fresh = &serverHelloDoneMsg{}
+	case *helloRequestMsg:
+		fresh = &helloRequestMsg{}
+	case *certificateVerifyMsg:
+		add("sigalg", num(int(m.signatureAlgorithm)))
+		add("sig", verifC15cBytes(m.signature))
+		fresh = &certificateVerifyMsg{hasSignatureAndHash: m.hasSignatureAndHash, signatureAlgorithm: m.signatureAlgorithm,
+			signature: verifC15cCopy(m.signature)}
+	case *newSessionTicketMsg:
+		add("ticket", verifC15cBytes(m.ticket))
+		fresh = &newSessionTicketMsg{ticket: verifC15cCopy(m.ticket)}
+	case *certificateRequestMsg:
+		algs := make([]uint16, len(m.supportedSignatureAlgorithms))
+		for i, a := range m.supportedSignatureAlgorithms {
+			algs[i] = uint16(a)
+		}
+		add("types", verifC15cBytes(m.certificateTypes))
+		add("sigalgs", verifC15cNums(algs))
+		add("cas", verifC15cList(m.certificateAuthorities))
+		fresh = &certificateRequestMsg{hasSignatureAndHash: m.hasSignatureAndHash, certificateTypes: verifC15cCopy(m.certificateTypes),
+			supportedSignatureAlgorithms: append([]SignatureScheme(nil), m.supportedSignatureAlgorithms...),
+			certificateAuthorities:       verifC15cCopyList(m.certificateAuthorities)}
+	case *certificateRequestMsgGM:
+		add("types", verifC15cBytes(m.certificateTypes))
+		add("cas", verifC15cList(m.certificateAuthorities))
+		fresh = &certificateRequestMsgGM{certificateTypes: verifC15cCopy(m.certificateTypes),
+			certificateAuthorities: verifC15cCopyList(m.certificateAuthorities)}
+	case *certificateStatusMsg:
+		add("statusType", num(int(m.statusType)))
+		add("response", verifC15cBytes(m.response))
+		fresh = &certificateStatusMsg{statusType: m.statusType, response: verifC15cCopy(m.response)}
+	case *nextProtoMsg:
+		add("proto", verifC15cBytes([]byte(m.proto)))
+		fresh = &nextProtoMsg{proto: m.proto}
+	case *serverHelloMsg:
+		add("vers", num(int(m.vers)))
+		add("random", verifC15cBytes(m.random))
+		add("sessionId", verifC15cBytes(m.sessionId))
+		add("suite", num(int(m.cipherSuite)))
+		add("comp", num(int(m.compressionMethod)))
+		add("npn", verifC15cBool(m.nextProtoNeg))
+		add("nextProtos", verifC15cStrings(m.nextProtos))
+		add("ocsp", verifC15cBool(m.ocspStapling))
+		add("scts", verifC15cList(m.scts))
+		add("ticket", verifC15cBool(m.ticketSupported))
+		add("reneg", verifC15cBytes(m.secureRenegotiation))
+		add("renegSupported", verifC15cBool(m.secureRenegotiationSupported))
+		add("alpn", verifC15cBytes([]byte(m.alpnProtocol)))
+		fresh = &serverHelloMsg{vers: m.vers, random: verifC15cCopy(m.random), sessionId: verifC15cCopy(m.sessionId),
+			cipherSuite: m.cipherSuite, compressionMethod: m.compressionMethod, nextProtoNeg: m.nextProtoNeg,
+			nextProtos: append([]string(nil), m.nextProtos...), ocspStapling: m.ocspStapling, scts: verifC15cCopyList(m.scts),
+			ticketSupported: m.ticketSupported, secureRenegotiation: verifC15cCopy(m.secureRenegotiation),
+			secureRenegotiationSupported: m.secureRenegotiationSupported, alpnProtocol: m.alpnProtocol}
+	case *clientHelloMsg:
+		curves := make([]uint16, len(m.supportedCurves))
+		for i, c := range m.supportedCurves {
+			curves[i] = uint16(c)
+		}
+		algs := make([]uint16, len(m.supportedSignatureAlgorithms))
+		for i, a := range m.supportedSignatureAlgorithms {
+			algs[i] = uint16(a)
+		}
+		add("vers", num(int(m.vers)))
+		add("random", verifC15cBytes(m.random))
+		add("sessionId", verifC15cBytes(m.sessionId))
+		add("suites", verifC15cNums(m.cipherSuites))
+		add("comps", verifC15cBytes(m.compressionMethods))
+		add("npn", verifC15cBool(m.nextProtoNeg))
+		add("serverName", verifC15cBytes([]byte(m.serverName)))
+		add("ocsp", verifC15cBool(m.ocspStapling))
+		add("scts", verifC15cBool(m.scts))
+		add("curves", verifC15cNums(curves))
+		add("points", verifC15cBytes(m.supportedPoints))
+		add("ticketSupported", verifC15cBool(m.ticketSupported))
+		add("ticket", verifC15cBytes(m.sessionTicket))
+		add("sigalgs", verifC15cNums(algs))
+		add("reneg", verifC15cBytes(m.secureRenegotiation))
+		add("renegSupported", verifC15cBool(m.secureRenegotiationSupported))
+		add("alpn", verifC15cStrings(m.alpnProtocols))
+		fresh = &clientHelloMsg{vers: m.vers, random: verifC15cCopy(m.random), sessionId: verifC15cCopy(m.sessionId),
+			cipherSuites: append([]uint16(nil), m.cipherSuites...), compressionMethods: verifC15cCopy(m.compressionMethods),
+			nextProtoNeg: m.nextProtoNeg, serverName: m.serverName, ocspStapling: m.ocspStapling, scts: m.scts,
+			supportedCurves: append([]CurveID(nil), m.supportedCurves...), supportedPoints: verifC15cCopy(m.supportedPoints),
+			ticketSupported: m.ticketSupported, sessionTicket: verifC15cCopy(m.sessionTicket),
+			supportedSignatureAlgorithms: append([]SignatureScheme(nil), m.supportedSignatureAlgorithms...),
+			secureRenegotiation:          verifC15cCopy(m.secureRenegotiation),
+			secureRenegotiationSupported: m.secureRenegotiationSupported, alpnProtocols: append([]string(nil), m.alpnProtocols...)}
+	default:
+		return false, "unknown"
+	}
+	add("marshal", verifC15cBytes(fresh.marshal()))
+	return true, strings.Join(f, " ")
+}
+
+// VerifMarshalSamplesSmall returns valid encodings of every handshake message type like VerifMarshalSamples,
+// with short variable fields (so that every truncation and every length-field perturbation of a sample can be
+// enumerated) and with the shapes VerifMarshalSamples lacks: an empty certificate in the middle of a list,
+// single-entry lists, every extension of both hellos at its smallest.
+func VerifMarshalSamplesSmall(rb func(n int) []byte) map[string][][]byte {
+	out := map[string][][]byte{}
+	add := func(kind string, m verifHandshakeMessage) {
+		out[kind] = append(out[kind], append([]byte{}, m.marshal()...))
+	}
+	add("clientHello", &clientHelloMsg{vers: VersionGMSSL, random: rb(32), cipherSuites: []uint16{GMTLS_SM2_WITH_SM4_SM3},
+		compressionMethods: []uint8{compressionNone}})
+	add("clientHello", &clientHelloMsg{vers: VersionTLS12, random: rb(32), sessionId: rb(2),
+		cipherSuites: []uint16{GMTLS_ECDHE_SM2_WITH_SM4_SM3, scsvRenegotiation}, compressionMethods: []uint8{compressionNone, 1},
+		nextProtoNeg: true, serverName: "a", ocspStapling: true, scts: true, supportedCurves: []CurveID{CurveP256},
+		supportedPoints: []uint8{0}, ticketSupported: true, sessionTicket: rb(3),
+		supportedSignatureAlgorithms: []SignatureScheme{SM2WITHSM3}, secureRenegotiationSupported: true, secureRenegotiation: rb(2),
+		alpnProtocols: []string{"h2", "x"}})
+	add("clientHello", &clientHelloMsg{vers: VersionTLS12, random: rb(32), cipherSuites: nil, compressionMethods: nil,
+		ticketSupported: true, secureRenegotiationSupported: true})
+
+	add("serverHello", &serverHelloMsg{vers: VersionGMSSL, random: rb(32), cipherSuite: GMTLS_SM2_WITH_SM4_SM3, compressionMethod: compressionNone})
+	add("serverHello", &serverHelloMsg{vers: VersionTLS12, random: rb(32), sessionId: rb(3), cipherSuite: TLS_ECDHE_RSA_WITH_AES_128_GCM_SHA256,
+		compressionMethod: 1, nextProtoNeg: true, nextProtos: []string{"h2", "y"}, ocspStapling: true, scts: [][]byte{rb(2), rb(1)},
+		ticketSupported: true, secureRenegotiationSupported: true, secureRenegotiation: rb(2), alpnProtocol: "h2"})
+	add("serverHello", &serverHelloMsg{vers: VersionTLS12, random: rb(32), sessionId: rb(32), cipherSuite: 0x002f, nextProtoNeg: true,
+		secureRenegotiationSupported: true})
+
+	add("certificate", &certificateMsg{})
+	add("certificate", &certificateMsg{certificates: [][]byte{rb(3)}})
+	add("certificate", &certificateMsg{certificates: [][]byte{rb(2), {}, rb(4)}})
+	add("certificate", &certificateMsg{certificates: [][]byte{{}, rb(1)}})
+
+	add("serverKeyExchange", &serverKeyExchangeMsg{})
+	add("serverKeyExchange", &serverKeyExchangeMsg{key: rb(5)})
+	add("clientKeyExchange", &clientKeyExchangeMsg{})
+	add("clientKeyExchange", &clientKeyExchangeMsg{ciphertext: rb(6)})
+
+	add("certificateStatus", &certificateStatusMsg{statusType: statusTypeOCSP, response: rb(3)})
+	add("certificateStatus", &certificateStatusMsg{statusType: statusTypeOCSP})
+	add("certificateStatus", &certificateStatusMsg{statusType: 0})
+
+	add("serverHelloDone", &serverHelloDoneMsg{})
+	add("helloRequest", &helloRequestMsg{})
+
+	add("finished", &finishedMsg{})
+	add("finished", &finishedMsg{verifyData: rb(12)})
+
+	add("nextProto", &nextProtoMsg{proto: "h2"})
+	add("nextProto", &nextProtoMsg{proto: string(rb(30))})
+
+	add("certificateRequest", &certificateRequestMsg{certificateTypes: []byte{certTypeRSASign}})
+	add("certificateRequest", &certificateRequestMsg{certificateTypes: []byte{certTypeRSASign, certTypeECDSASign}, certificateAuthorities: [][]byte{rb(3), {}, rb(1)}})
+	add("certificateRequest+sh", &certificateRequestMsg{hasSignatureAndHash: true, certificateTypes: []byte{certTypeRSASign}})
+	add("certificateRequest+sh", &certificateRequestMsg{hasSignatureAndHash: true, certificateTypes: []byte{certTypeECDSASign, certTypeRSASign},
+		supportedSignatureAlgorithms: []SignatureScheme{SM2WITHSM3, PKCS1WithSHA256}, certificateAuthorities: [][]byte{rb(2), rb(3)}})
+	add("certificateRequestGM", &certificateRequestMsgGM{certificateTypes: []byte{certTypeECDSASign}})
+	add("certificateRequestGM", &certificateRequestMsgGM{certificateTypes: []byte{certTypeRSASign, certTypeECDSASign}, certificateAuthorities: [][]byte{rb(4), {}}})
+
+	add("certificateVerify", &certificateVerifyMsg{})
+	add("certificateVerify", &certificateVerifyMsg{signature: rb(7)})
+	add("certificateVerify+sh", &certificateVerifyMsg{hasSignatureAndHash: true, signatureAlgorithm: SM2WITHSM3})
+	add("certificateVerify+sh", &certificateVerifyMsg{hasSignatureAndHash: true, signatureAlgorithm: PKCS1WithSHA256, signature: rb(7)})
+
+	add("newSessionTicket", &newSessionTicketMsg{})
+	add("newSessionTicket", &newSessionTicketMsg{ticket: rb(5)})
+	return out
+}
+
+func verifC15cParseBytes(s string) ([]byte, bool) {
+	if s == "-" {
+		return nil, true
+	}
+	b, err := hex.DecodeString(s)
+	return b, err == nil && len(b) > 0
+}
+
+func verifC15cParseList(s string) ([][]byte, bool) {
+	if s == "-" {
+		return nil, true
+	}
+	var out [][]byte
+	for _, f := range strings.Split(s, ",") {
+		if f == "." {
+			out = append(out, []byte{})
+			continue
+		}
+		b, err := hex.DecodeString(f)
+		if err != nil || len(b) == 0 {
+			return nil, false
+		}
+		out = append(out, b)
+	}
+	return out, true
+}
+
+func verifC15cParseNums(s string) ([]uint16, bool) {
+	if s == "-" {
+		return nil, true
+	}
+	var out []uint16
+	for _, f := range strings.Split(s, ",") {
+		n, err := strconv.ParseUint(f, 10, 16)
+		if err != nil {
+			return nil, false
+		}
+		out = append(out, uint16(n))
+	}
+	return out, true
+}
+
+// VerifMarshalHandshakeFields builds a fresh message struct of the named kind from fields — the tokens of a
+// VerifDumpHandshake dump without the final marshal= token, in the same order — and returns what its marshal
+// method writes. nil for an unknown kind or malformed fields. (The marshal methods of the two hellos panic for
+// ALPN names that are empty or longer than 255 bytes; the caller recovers.)
+func VerifMarshalHandshakeFields(kind string, fields string) []byte {
+	toks := strings.Fields(fields)
+	pos := 0
+	bad := false
+	next := func(name string) string {
+		if pos >= len(toks) || !strings.HasPrefix(toks[pos], name+"=") {
+			bad = true
+			return "-"
+		}
+		v := toks[pos][len(name)+1:]
+		pos++
+		return v
+	}
+	bytesOf := func(name string) []byte {
+		b, ok := verifC15cParseBytes(next(name))
+		bad = bad || !ok
+		return b
+	}
+	listOf := func(name string) [][]byte {
+		l, ok := verifC15cParseList(next(name))
+		bad = bad || !ok
+		return l
+	}
+	stringsOf := func(name string) []string {
+		var out []string
+		for _, b := range listOf(name) {
+			out = append(out, string(b))
+		}
+		return out
+	}
+	numsOf := func(name string) []uint16 {
+		n, ok := verifC15cParseNums(next(name))
+		bad = bad || !ok
+		return n
+	}
+	numOf := func(name string, bits int) uint64 {
+		n, err := strconv.ParseUint(next(name), 10, bits)
+		bad = bad || err != nil
+		return n
+	}
+	boolOf := func(name string) bool {
+		v := next(name)
+		bad = bad || (v != "0" && v != "1")
+		return v == "1"
+	}
+	var m verifHandshakeMessage
+	switch kind {
+	case "certificate":
+		m = &certificateMsg{certificates: listOf("certs")}
+	case "serverKeyExchange":
+		m = &serverKeyExchangeMsg{key: bytesOf("key")}
+	case "clientKeyExchange":
+		m = &clientKeyExchangeMsg{ciphertext: bytesOf("ciphertext")}
+	case "finished":
+		m = &finishedMsg{verifyData: bytesOf("verifyData")}
+	case "serverHelloDone":
+		m = &serverHelloDoneMsg{}
+	case "helloRequest":
+		m = &helloRequestMsg{}
+	case "certificateVerify", "certificateVerify+sh":
+		m = &certificateVerifyMsg{hasSignatureAndHash: kind == "certificateVerify+sh",
+			signatureAlgorithm: SignatureScheme(numOf("sigalg", 16)), signature: bytesOf("sig")}
+	case "newSessionTicket":
+		m = &newSessionTicketMsg{ticket: bytesOf("ticket")}
+	case "certificateRequest", "certificateRequest+sh":
+		cr := &certificateRequestMsg{hasSignatureAndHash: kind == "certificateRequest+sh", certificateTypes: bytesOf("types")}
+		for _, a := range numsOf("sigalgs") {
+			cr.supportedSignatureAlgorithms = append(cr.supportedSignatureAlgorithms, SignatureScheme(a))
+		}
+		cr.certificateAuthorities = listOf("cas")
+		m = cr
+	case "certificateRequestGM":
+		m = &certificateRequestMsgGM{certificateTypes: bytesOf("types"), certificateAuthorities: listOf("cas")}
+	case "certificateStatus":
+		m = &certificateStatusMsg{statusType: uint8(numOf("statusType", 8)), response: bytesOf("response")}
+	case "nextProto":
+		m = &nextProtoMsg{proto: string(bytesOf("proto"))}
+	case "serverHello":
+		m = &serverHelloMsg{vers: uint16(numOf("vers", 16)), random: bytesOf("random"), sessionId: bytesOf("sessionId"),
+			cipherSuite: uint16(numOf("suite", 16)), compressionMethod: uint8(numOf("comp", 8)), nextProtoNeg: boolOf("npn"),
+			nextProtos: stringsOf("nextProtos"), ocspStapling: boolOf("ocsp"), scts: listOf("scts"), ticketSupported: boolOf("ticket"),
+			secureRenegotiation: bytesOf("reneg"), secureRenegotiationSupported: boolOf("renegSupported"), alpnProtocol: string(bytesOf("alpn"))}
+	case "clientHello":
+		ch := &clientHelloMsg{vers: uint16(numOf("vers", 16)), random: bytesOf("random"), sessionId: bytesOf("sessionId"),
+			cipherSuites: numsOf("suites"), compressionMethods: bytesOf("comps"), nextProtoNeg: boolOf("npn"),
+			serverName: string(bytesOf("serverName")), ocspStapling: boolOf("ocsp"), scts: boolOf("scts")}
+		for _, c := range numsOf("curves") {
+			ch.supportedCurves = append(ch.supportedCurves, CurveID(c))
+		}
+		ch.supportedPoints = bytesOf("points")
+		ch.ticketSupported = boolOf("ticketSupported")
+		ch.sessionTicket = bytesOf("ticket")
+		for _, a := range numsOf("sigalgs") {
+			ch.supportedSignatureAlgorithms = append(ch.supportedSignatureAlgorithms, SignatureScheme(a))
+		}
+		ch.secureRenegotiation = bytesOf("reneg")
+		ch.secureRenegotiationSupported = boolOf("renegSupported")
+		ch.alpnProtocols = stringsOf("alpn")
+		m = ch
+	default:
+		return nil
+	}
+	if bad || pos != len(toks) {
+		return nil
+	}
+	return m.marshal()
+}
